@@ -281,3 +281,4 @@ def run(ctx):
     r3_fifo(ctx)
     r4_activation_pairing(ctx)
     r5_fresh_and_static(ctx)
+    common.r_stack_discipline(ctx, "C03.R6")
